@@ -23,26 +23,39 @@ base. Where section 0 and a later section disagree, section 0 is right.
 """
 
 SEEDED_INTRO = """Two kinds of seeded changes are kept under `seeded/<name>/` (`patch.diff`, `meta.json`, the
-demonstration, `confirm.log`, `result.json` written by `tools/seeded.py`):
+demonstration, `confirm.log`, `result.json` written by `tools/seeded.py`, `history.json` where a
+check had to be strengthened):
 
 * `Cxx-revert-<commit>`: the reversal of every `fix:` commit (the defect of the pinned tree comes
   back). Each must be caught by the property's quick check.
-* `Cxx-agent`: one change per property written by a fresh sub-agent that was given only the text of
-  the property and a scratch worktree of `/repo` (nothing from `/verif`), asked for a plausible
-  refactoring that breaks the property, still compiles, passes the 102 existing tests and needs
-  something specific to manifest, with a demonstration test. Each was confirmed in a scratch
-  worktree before it was kept (`tools/confirm_seed.sh`: the 102 tests pass with the change, the
-  demonstration fails with it and passes without it), the worktrees were removed afterwards.
+* `Cxx-agent` and `Cxx-agent2`: two changes per property, each written by a fresh sub-agent that was
+  given only the text of the property and a scratch worktree of `/repo` (nothing from `/verif`;
+  the briefs are kept as `seeded/BRIEF_batch*_example_C08.txt`), asked for a plausible refactoring
+  that breaks the property, still compiles, passes the 102 existing tests and needs something
+  specific to manifest, with a demonstration test. The second batch was additionally told which
+  change already existed, so as to hit a different function or clause. Each change was confirmed
+  in a scratch worktree before it was kept (`tools/confirm_seed.sh`: the 102 tests pass with the
+  change, the demonstration fails with it and passes without it); the worktrees were removed.
 
 `python3 tools/seeded.py seeded/<name>` applies the patch to `/repo`, runs the property's quick
-check, restores `/repo` and records the outcome. Outcomes on the first run of each: all 16
-reversals DETECTED; 19 of the 20 agent changes DETECTED; `C02-agent` was MISSED (the quick tier ran
-only two Quadratic+Quadratic pairs and no operand listed both (i,j) and (j,i)); the `asym` stream
-was added to `tools/props/c02.py` and the change is now DETECTED. Two streams were added *before*
-the first run of the corresponding seed, after reading its description, because the generator
-could not have produced the needed input: two- and three-step `Instance::partial_evaluate`
-(`C03-agent`) and binary variables without explicit bound at out-of-range values (`C05-agent`).
-The table is regenerated from the result files by `tools/build_design.py`.
+check, restores `/repo` and records the outcome. First-run outcomes: all 17 reversals DETECTED;
+36 of the 40 agent changes DETECTED. The four misses and what was done (each is DETECTED now):
+
+* `C02-agent` (Quadratic+Quadratic keyed by the unordered pair): the quick tier ran only two
+  Quadratic+Quadratic pairs and no operand listed both (i,j) and (j,i) -> stream `asym`.
+* `C02-agent2` (constant fast path through `get_constant()`): no degree-0 polynomial with its
+  constant split over several empty-id monomials was generated -> stream `splitconst`.
+* `C12-agent2` (bit count from the float width): fractional bounds were never combined with an
+  integer width of exactly 2^k-2 and outward slack > 1 -> stream `width-frac`.
+* `C20-agent2` (listing accessors return the first layer with the same digest): the harness never
+  called `get_instances` / `get_solutions` -> they are observed and judged now (`judge_listing`).
+
+Two streams were added *before* the first run of the corresponding seed, after reading its
+description, because the generator could not have produced the needed input: two- and three-step
+`Instance::partial_evaluate` (`C03-agent`) and binary variables without explicit bound at
+out-of-range values (`C05-agent`). Every miss was a gap of a *generator or observation*, none of
+a theorem or of the model. The table is regenerated from the result files by
+`tools/build_design.py`.
 
 """
 
